@@ -116,11 +116,13 @@ class GCPMapping:
         )
 
     def __dask_tokenize__(self):
+        # lists rather than arrays: dask prints what is returned here, and numpy prints
+        # arrays rounded to 8 digits and abbreviated
         return (
             "odc.geo._gcp.GCPMapping",
             str(self._crs),
-            self._wld,
-            self._pix,
+            self._wld.tolist(),
+            self._pix.tolist(),
         )
 
     @staticmethod
